@@ -357,6 +357,8 @@ func lexExpr(name, input string) *lexer {
 
 // run runs the state machine for the lexer.
 func (l *lexer) run() {
+	verifLexRun(+1)
+	defer verifLexRun(-1)
 	for l.state != nil {
 		l.state = l.state(l)
 	}
@@ -365,6 +367,7 @@ func (l *lexer) run() {
 
 // next returns the next rune in the input.
 func (l *lexer) next() (r rune) {
+	verifLexStep()
 	if l.pos >= ast.Pos(len(l.input)) {
 		l.width = 0
 		return eof
